@@ -30,7 +30,11 @@ Record call := mkCall { c_close : bool; c_pc : pc; c_fut : fut; c_sent : bool }.
 
 Inductive lstate :=
 | LInit                                   (* run_client() has scheduled _run; conn_provider.connect() has not returned yet *)
-| LRun | LClean (e : exn) (i : nat) (dirty : bool) | LExit | LCrash.
+| LRun
+| LErrWait (e : exn)                       (* _run's handler is awaiting on_error(self, e); nothing has been torn down yet *)
+| LClean (e : exn) (i : nat) (dirty : bool)
+| LCloseWait                               (* the finally has reset the writer and failed the pending futures and is awaiting on_close(self) *)
+| LExit | LCrash.
 
 Record state := mkState {
   calls : list call;        (* one entry per call the application makes *)
@@ -48,12 +52,15 @@ Inductive event :=
 Inductive label :=
 | AInvoke (k : nat) | ARegister (k : nat) | ASchedule (k : nat) | ASend (k : nat) | AComplete (k : nat)
 | AConnect (ok : bool)
-| AResp (k : nat) (ok : bool) | APush (ok : bool) | ACloseReq | ACut | AReset | AClean.
+| AResp (k : nat) (ok : bool) | APush (ok : bool) | ACloseReq | ACut | AReset | AClean
+| AErrDone                 (* the awaited on_error callback returns: the finally starts *)
+| ACloseDone.              (* the awaited on_close callback returns: _run exits *)
 
 (* facts about the source that the model follows (regenerated from /repo) *)
 Record flags := mkFlags {
   f_snapshot : bool;        (* _cleanup_pending_responses iterates a copy of the futures *)
-  f_clear_writer : bool     (* _run's finally sets self.writer = None *)
+  f_clear_writer : bool;    (* _run's finally sets self.writer = None BEFORE it fails the futures and awaits on_close *)
+  f_clear_writer_late : bool (* self.writer = None (also) after `await on_close(self)` *)
 }.
 
 Fixpoint upd {A} (k : nat) (f : A -> A) (l : list A) : list A :=
@@ -89,12 +96,22 @@ Definition fail_all (e : exn) (pend : list nat) (cs : list call) : list call :=
 
 Definition is_run (l : lstate) : bool := match l with LRun => true | _ => false end.
 
-(* _run: exception handler (sets close_exception) + finally: writer/reader := None; _cleanup_pending_responses; exit *)
-Definition teardown (fl : flags) (e : exn) (s : state) : state :=
+(* _run's finally up to `await on_close(self)`: self.writer = None; self.reader = None; _cleanup_pending_responses(e).
+   The callbacks are awaited: while one is parked the io loop and the caller threads go on (a callback that does not yield
+   is the case where AErrDone / ACloseDone follow at once). *)
+Definition finally_top (fl : flags) (e : exn) (s : state) : state :=
   let w := if f_clear_writer fl then false else writer s in
   if f_snapshot fl
-  then mkState (fail_all e (pending s) (calls s)) [] LExit w (copen s) (running s)
+  then mkState (fail_all e (pending s) (calls s)) [] LCloseWait w (copen s) (running s)
   else mkState (calls s) (pending s) (LClean e 0 false) w (copen s) (running s).
+
+(* _run's exception handlers: KlongIPCConnectionFailureException / KlongIPCCreateConnectionException and the generic
+   handler await on_error first; KGRemoteCloseConnectionException goes straight to the finally *)
+Definition teardown (fl : flags) (e : exn) (s : state) : state :=
+  match e with
+  | XCloseConn => finally_top fl e s
+  | _ => with_lst s (LErrWait e)
+  end.
 
 Definition resp_body (k : nat) (c : call) : body := if c_close c then BClose else BVal (Z.of_nat k).
 
@@ -192,13 +209,19 @@ Definition step (fl : flags) (s : state) (a : label) : option (state * list even
   | ACloseReq => if is_run (lst s) then Some (teardown fl XCloseConn (with_running s false), [ELoss]) else None
   | ACut => if is_run (lst s) then Some (teardown fl XConnFail s, [ELoss]) else None
   | AReset => if is_run (lst s) then Some (teardown fl XConnFail (with_copen s false), [ELoss]) else None
+  | AErrDone => match lst s with LErrWait e => Some (finally_top fl e s, []) | _ => None end
+  | ACloseDone =>
+      match lst s with
+      | LCloseWait => Some (mkState (calls s) (pending s) LExit (if f_clear_writer_late fl then false else writer s) (copen s) (running s), [])
+      | _ => None
+      end
   | AClean =>
       match lst s with
       | LClean e i dirty =>
           if dirty then Some (with_lst s LCrash, [])
           else match nth_error (pending s) i with
                | Some k => Some (with_lst (updc s k (set_fut (FExc e))) (LClean e (S i) false), [])
-               | None => Some (with_lst (with_pending s []) LExit, [])
+               | None => Some (with_lst (with_pending s []) LCloseWait, [])
                end
       | _ => None
       end
@@ -242,7 +265,7 @@ Definition owed (s : state) : bool :=
 
 (* nothing left to do for the client, and the server has answered (or cut) everything it was sent *)
 Definition quiescent (fl : flags) (s : state) : bool :=
-  match lst s with LInit => false | _ => true end &&      (* connect() returns or raises (max_retries) *)
+  match lst s with LInit | LErrWait _ | LCloseWait => false | _ => true end &&      (* connect() / an awaited callback returns *)
   negb (existsb (internal_enabled_call fl s) (seq 0 (length (calls s)))) &&
   match step fl s AClean with None => true | Some _ => false end &&
   negb (owed s).
